@@ -1,8 +1,478 @@
-//! C03 — not built yet.
+//! C03 — every request gets exactly one matching response; notifies get none.
+//!
+//! One router with every built-in handler kind is served at once by `Server`, `AsyncServer`,
+//! `WebSocketServer` (inline) and `WebSocketServer` with the same handlers marked off-reader, each of
+//! them once plain and once behind a middleware (8 servers). Raw peers (oracle.rs frames over a plain
+//! TCP stream / tokio_tungstenite binary messages) send generated pipelined sequences and read to
+//! end-of-stream after half-closing / sending Close, so absence of frames is observed.
+//!
+//! Oracle: L1 structural (exactly one response per non-notify with the request's id and query bytes
+//! unless handler-set, none per notify, handler/middleware invocation counts from a global log, inline
+//! arrival order), L2 the statement's error classes derived from how each request was generated,
+//! L3 differential of (ec, query_format, body_format, query, body) across the four dispatch paths.
+//!
+//! `c01_net` (C01 "net" stage) lives in c03_c01net.rs.
+
+#[path = "c03_cli.rs"]
+mod cli;
+#[path = "c03_gen.rs"]
+mod gen_;
+#[path = "c03_c01net.rs"]
+mod c01net;
+#[path = "c03_srv.rs"]
+mod srv;
+
 use crate::common::*;
+use crate::oracle::Frame;
+use cli::{ConnOut, End};
+use gen_::{ExpBody, GenStats, Req};
+use serde_json::{Value, json};
+use srv::{EV_H, EV_MW, Srv, T, Tout, Tr};
+use std::collections::HashMap;
+use std::sync::Arc;
+use std::time::Duration;
+
+pub use c01net::c01_net;
+
+type RespFields = (u32, u16, u16, Vec<u8>, Vec<u8>);
+
+fn fields(f: &Frame) -> RespFields {
+    (f.header.ec, f.header.query_format, f.header.body_format, f.query.clone(), f.body.clone())
+}
+
+fn decode_tout(body: &[u8], bf: u16) -> Option<Tout> {
+    if bf == 1 { beve::from_slice::<Tout>(body).ok() } else { serde_json::from_slice::<Tout>(body).ok() }
+}
+
+struct SeqCtx<'a> {
+    seed: u64,
+    seq: u64,
+    reqs: &'a [Req],
+    stalled: bool,
+    seen: &'a std::cell::RefCell<std::collections::HashSet<String>>,
+}
+
+impl SeqCtx<'_> {
+    /// Record a violation; the (large) replay object is only built for a signature not seen before.
+    fn viol(&self, rep: &mut Report, sig: String, detail: String, srv: &str, idx: Option<usize>) {
+        let fresh = self.seen.borrow_mut().insert(sig.clone());
+        let replay = if fresh { self.replay(srv, idx) } else { Value::Null };
+        rep.violation(sig, detail, replay);
+    }
+    fn replay(&self, srv: &str, idx: Option<usize>) -> Value {
+        json!({
+            "seed": self.seed, "sequence": self.seq, "server": srv, "request_index": idx,
+            "request_wire_hex": idx.map(|i| hex_trunc(&self.reqs[i].wire(), 4096)),
+            "requests": self.reqs.iter().enumerate().map(|(i, r)| r.desc(i)).collect::<Vec<_>>(),
+        })
+    }
+}
+
+/// Judge one server's execution of one sequence. Returns, per request, the single response's fields
+/// (for the differential) when exactly one response arrived.
+fn check_server(rep: &mut Report, cx: &SeqCtx, srv: &Srv, out: &ConnOut) -> Vec<Option<RespFields>> {
+    let name = srv.name();
+    let reqs = cx.reqs;
+    let mut single: Vec<Option<RespFields>> = vec![None; reqs.len()];
+    if let End::Harness(e) = &out.end {
+        rep.inconclusive(format!("{name}: sequence {} not executed: {e}", cx.seq));
+        // events of a never-sent sequence cannot exist; nothing to take
+        return single;
+    }
+    rep.count(&format!("frames_received.{name}"), out.frames.len() as u64);
+    rep.count("response_bytes_received", out.bytes as u64);
+    let ended = out.ended();
+    match &out.end {
+        End::Eos => rep.count("end_of_stream_observed", 1),
+        End::Unclean(_) => rep.count("end_of_stream_by_transport_error", 1),
+        _ => {
+            rep.count("end_of_stream_not_observed", 1);
+            rep.inconclusive(format!("{name}: no end of stream within {:?} after closing (sequence {})", cli::EOS_T, cx.seq));
+        }
+    }
+    if let Some(g) = &out.garbage {
+        cx.viol(rep, format!("C03:response-stream-not-frames:{name}"), format!("{name}, sequence {}: {g}", cx.seq), &name, None);
+    }
+    let by_id: HashMap<u64, usize> = reqs.iter().enumerate().map(|(i, r)| (r.id, i)).collect();
+    let mut got: Vec<Vec<usize>> = vec![vec![]; reqs.len()]; // request -> positions of its responses
+    for (pos, f) in out.frames.iter().enumerate() {
+        match by_id.get(&f.header.id) {
+            Some(&i) => got[i].push(pos),
+            None => cx.viol(rep, 
+                format!("C03:response-with-unknown-id:{name}"),
+                format!("{name}, sequence {}: frame #{pos} carries id {} which no request of the connection used; header {:?}", cx.seq, f.header.id, f.header),
+                &name, None,
+            ),
+        }
+    }
+    let mut last_inline_pos: Option<(usize, usize)> = None;
+    let mut last_off_pos: Option<usize> = None;
+    for (i, r) in reqs.iter().enumerate() {
+        let e = &r.expect;
+        let label = &e.label;
+        let inline = !e.dispatched || r.target.map(|t| srv.inline_for(t)).unwrap_or(true);
+        // ---- L1: response count
+        if r.notify == 1 {
+            if !got[i].is_empty() {
+                let f = &out.frames[got[i][0]];
+                cx.viol(rep, 
+                    format!("C03:notify-got-response:{name}:{label}"),
+                    format!("{name}, sequence {}, request #{i} (notify=1, {label}): {} response frame(s); first: ec={} body={:?}", cx.seq, got[i].len(), f.header.ec, String::from_utf8_lossy(&f.body[..f.body.len().min(80)])),
+                    &name, Some(i),
+                );
+            } else if ended {
+                rep.count("notify_silence_observed_to_end_of_stream", 1);
+            }
+        } else {
+            match got[i].len() {
+                0 => {
+                    if !ended {
+                        // already inconclusive above
+                    } else if inline || (!out.waited_out || !cx.stalled) {
+                        cx.viol(rep, 
+                            format!("C03:missing-response:{name}:{label}"),
+                            format!("{name}, sequence {}, request #{i} (notify=0, {label}, {}): no response up to end of stream ({} frames received for {} expected; waited_out={})", cx.seq, if inline { "inline" } else { "off-reader" }, out.frames.len(), reqs.iter().filter(|r| r.notify == 0).count(), out.waited_out),
+                            &name, Some(i),
+                        );
+                    } else {
+                        rep.inconclusive(format!("{name}: off-reader response missing after a machine stall (sequence {})", cx.seq));
+                    }
+                }
+                1 => {
+                    rep.count("requests_with_exactly_one_response", 1);
+                    single[i] = Some(fields(&out.frames[got[i][0]]));
+                }
+                n => cx.viol(rep, 
+                    format!("C03:duplicate-response:{name}:{label}"),
+                    format!("{name}, sequence {}, request #{i} ({label}): {n} responses with its id", cx.seq),
+                    &name, Some(i),
+                ),
+            }
+        }
+        // ---- L1: invocation counts
+        let (hcnt, hroute) = srv::ev_take(srv.sid, EV_H, r.token);
+        let want_h = e.invoked as u32;
+        if hcnt != want_h {
+            let kind = if hcnt > want_h { "extra" } else { "missing" };
+            if hcnt < want_h && (!ended || (!inline && out.waited_out && cx.stalled)) {
+                rep.inconclusive(format!("{name}: handler invocation not observed, stream not ended or machine stalled (sequence {})", cx.seq));
+            } else {
+                let what = if !e.dispatched && hcnt > 0 { "rejected-request-handler-invoked".to_string() } else { format!("handler-invocations-{kind}") };
+                cx.viol(rep, 
+                    format!("C03:{what}:{name}:{label}"),
+                    format!("{name}, sequence {}, request #{i} ({label}, notify={}): handler body reached {hcnt} time(s), expected {want_h} (route id recorded {hroute})", cx.seq, r.notify),
+                    &name, Some(i),
+                );
+            }
+        } else if hcnt == 1 {
+            rep.count("handler_invocations_matched", 1);
+            if Some(hroute) != r.target.map(|t| t as u8) {
+                cx.viol(rep, 
+                    format!("C03:handler-route-mismatch:{name}:{label}"),
+                    format!("{name}, sequence {}, request #{i}: token recorded by route id {hroute}, request addressed {:?}", cx.seq, r.target),
+                    &name, Some(i),
+                );
+            }
+        } else {
+            rep.count("handler_non_invocations_matched", 1);
+        }
+        if srv.mw {
+            let (mcnt, _) = srv::ev_take(srv.sid, EV_MW, r.id);
+            let want_m = e.dispatched as u32;
+            if mcnt != want_m {
+                if mcnt < want_m && (!ended || (!inline && out.waited_out && cx.stalled)) {
+                    rep.inconclusive(format!("{name}: middleware invocation not observed (sequence {})", cx.seq));
+                } else {
+                    cx.viol(rep, 
+                        format!("C03:dispatch-count:{name}:{label}"),
+                        format!("{name}, sequence {}, request #{i} ({label}, notify={}): middleware (= dispatch) ran {mcnt} time(s), expected {want_m}", cx.seq, r.notify),
+                        &name, Some(i),
+                    );
+                }
+            } else {
+                rep.count("dispatch_counts_matched_via_middleware", 1);
+            }
+        }
+        if r.notify == 1 || got[i].len() != 1 {
+            continue;
+        }
+        let pos = got[i][0];
+        let f = &out.frames[pos];
+        // ---- L1: query echo
+        let own = match &e.body {
+            ExpBody::Exact { query: Some(q), .. } => Some(q.clone()),
+            _ => None,
+        };
+        let want_q = own.as_deref().unwrap_or(&r.query);
+        if f.query != want_q {
+            cx.viol(rep, 
+                format!("C03:query-echo:{name}:{label}"),
+                format!("{name}, sequence {}, request #{i} ({label}): response query {:?} (hex {}), expected {} {:?} (hex {})", cx.seq, String::from_utf8_lossy(&f.query), hex_trunc(&f.query, 64), if own.is_some() { "the handler-set" } else { "the request's" }, String::from_utf8_lossy(want_q), hex_trunc(want_q, 64)),
+                &name, Some(i),
+            );
+        }
+        // ---- L1: inline arrival order
+        if inline {
+            if let Some((pi, ppos)) = last_inline_pos {
+                rep.count("inline_order_pairs_checked", 1);
+                if pos < ppos {
+                    cx.viol(rep, 
+                        format!("C03:inline-order:{name}"),
+                        format!("{name}, sequence {}: response to request #{i} is frame #{pos} but the response to the earlier inline request #{pi} is frame #{ppos}", cx.seq),
+                        &name, Some(i),
+                    );
+                }
+            }
+            last_inline_pos = Some((i, pos));
+        } else {
+            // evidence that off-reader dispatch really ran concurrently (not a requirement)
+            if let Some(pp) = last_off_pos {
+                if pos < pp {
+                    rep.count("info_offreader_responses_overtaking_earlier_ones", 1);
+                }
+            }
+            last_off_pos = Some(pos);
+        }
+        // ---- L2: error class
+        if !e.allowed.contains(&f.header.ec) {
+            cx.viol(rep, 
+                format!("C03:error-class:{name}:{label}:got-{}", f.header.ec),
+                format!("{name}, sequence {}, request #{i} ({label}, variant {}): ec={} but the statement requires {:?}; body {:?}", cx.seq, r.variant, f.header.ec, e.allowed, String::from_utf8_lossy(&f.body[..f.body.len().min(120)])),
+                &name, Some(i),
+            );
+            continue;
+        }
+        rep.count("error_class_matched", 1);
+        // ---- L2: the handler's result
+        let bad: Option<String> = match &e.body {
+            ExpBody::Open => None,
+            ExpBody::Tout(want, bf) => {
+                if f.header.body_format != *bf {
+                    Some(format!("body_format {} instead of {bf}", f.header.body_format))
+                } else {
+                    match decode_tout(&f.body, *bf) {
+                        Some(t) if &t == want => None,
+                        other => Some(format!("body decodes to {other:?}, handler returned {want:?}")),
+                    }
+                }
+            }
+            ExpBody::Json(want) => match serde_json::from_slice::<Value>(&f.body) {
+                Ok(v) if &v == want && f.header.body_format == 2 => None,
+                other => Some(format!("body_format {} body {other:?}, expected JSON {want}", f.header.body_format)),
+            },
+            ExpBody::U64s(want) => match beve::read_typed_slice::<u64>(&f.body) {
+                Ok(v) if &v == want && f.header.body_format == 1 => None,
+                other => Some(format!("body_format {} body {other:?}, expected BEVE u64 array {want:?}", f.header.body_format)),
+            },
+            ExpBody::Exact { qf, bf, body, .. } => {
+                if (f.header.query_format, f.header.body_format) != (*qf, *bf) || &f.body != body {
+                    Some(format!("(query_format, body_format, body) = ({}, {}, {}), handler returned ({qf}, {bf}, {})", f.header.query_format, f.header.body_format, hex_trunc(&f.body, 48), hex_trunc(body, 48)))
+                } else {
+                    None
+                }
+            }
+        };
+        match bad {
+            Some(b) => cx.viol(rep, format!("C03:wrong-result:{name}:{label}"), format!("{name}, sequence {}, request #{i} ({label}, variant {}): {b}", cx.seq, r.variant), &name, Some(i)),
+            None => {
+                if e.body != ExpBody::Open {
+                    rep.count("handler_results_matched", 1);
+                }
+            }
+        }
+    }
+    // off-reader servers: responses produced on the reader (rejections) keep arrival order among themselves — covered by `inline`
+    single
+}
+
+fn differential(rep: &mut Report, cx: &SeqCtx, servers: &[Srv], singles: &[Vec<Option<RespFields>>]) {
+    for fam in [false, true] {
+        let idx: Vec<usize> = (0..servers.len()).filter(|&s| servers[s].mw == fam).collect();
+        for (i, r) in cx.reqs.iter().enumerate() {
+            if r.notify == 1 {
+                continue;
+            }
+            let have: Vec<usize> = idx.iter().copied().filter(|&s| singles[s][i].is_some()).collect();
+            if have.len() < 2 {
+                continue;
+            }
+            let a = have[0];
+            let fa = singles[a][i].as_ref().unwrap();
+            for &b in &have[1..] {
+                rep.count("differential_comparisons", 1);
+                let fb = singles[b][i].as_ref().unwrap();
+                if fa != fb {
+                    let field = if fa.0 != fb.0 { "ec" } else if fa.1 != fb.1 { "query_format" } else if fa.2 != fb.2 { "body_format" } else if fa.3 != fb.3 { "query" } else { "body" };
+                    let show = |f: &RespFields| format!("ec={} qf={} bf={} query={:?} body={:?}", f.0, f.1, f.2, String::from_utf8_lossy(&f.3[..f.3.len().min(60)]), String::from_utf8_lossy(&f.4[..f.4.len().min(160)]));
+                    cx.viol(rep, 
+                        format!("C03:differential:{}:{field}:{}-vs-{}", r.expect.label, servers[a].name(), servers[b].name()),
+                        format!("sequence {}, request #{i} ({}, variant {}): {} answered [{}], {} answered [{}]", cx.seq, r.expect.label, r.variant, servers[a].name(), show(fa), servers[b].name(), show(fb)),
+                        &servers[b].name(), Some(i),
+                    );
+                }
+            }
+        }
+    }
+    // informational only (not in the statement): middleware-wrapped vs plain router
+    for (i, r) in cx.reqs.iter().enumerate() {
+        if r.notify == 0 {
+            if let (Some(a), Some(b)) = (&singles[0][i], &singles[4][i]) {
+                if a != b {
+                    rep.count("info_plain_vs_middleware_router_field_differences", 1);
+                }
+            }
+        }
+    }
+}
+
+async fn run_sequence(servers: Arc<Vec<Srv>>, reqs: Arc<Vec<Req>>, mut rng: Rng) -> Vec<ConnOut> {
+    let wire: Arc<Vec<Vec<u8>>> = Arc::new(reqs.iter().map(|r| r.wire()).collect());
+    let n_expected = reqs.iter().filter(|r| r.notify == 0).count();
+    let mut hs = vec![];
+    for s in servers.iter() {
+        let (wire, addr, sid) = (wire.clone(), s.addr, s.sid);
+        let r = rng.fork(sid as u64);
+        let h = if s.is_ws() {
+            let mut keys = vec![];
+            for q in reqs.iter() {
+                if q.expect.invoked {
+                    keys.push((EV_H, q.token));
+                }
+                if s.mw && q.expect.dispatched {
+                    keys.push((EV_MW, q.id));
+                }
+            }
+            tokio::spawn(async move { cli::ws_conn(addr, wire, n_expected, sid, keys).await })
+        } else {
+            let early = rng.chance(1, 3);
+            tokio::spawn(async move { cli::tcp_conn(addr, wire, n_expected, early, r).await })
+        };
+        hs.push(h);
+    }
+    let mut outs = vec![];
+    for h in hs {
+        outs.push(match h.await {
+            Ok(o) => o,
+            Err(e) => ConnOut { frames: vec![], end: End::Harness(format!("client task failed: {e}")), garbage: None, waited_out: false, bytes: 0 },
+        });
+    }
+    outs
+}
 
 pub fn run(args: &Args) -> Report {
-    let mut rep = Report::new(args, "c03-stub", "stub");
-    rep.inconclusive("check not implemented");
+    if args.stage == "c01net" {
+        return c01_net(args);
+    }
+    let mut rep = Report::new(
+        args,
+        "c03-four-paths",
+        "generated pipelined sequences (1..=64 requests: version, query-format code, UTF-8/non-UTF-8 query, registered/unknown \
+         path, 19 targets over every built-in handler kind, body-format codes {0,1,2,3,4,0xffff}, well-formed/malformed bodies, \
+         notify 0/1) sent by raw peers to Server, AsyncServer, WebSocketServer inline and WebSocketServer off-reader, each plain \
+         and behind a middleware; peers half-close / send Close and read to end of stream; distinct = (class label, target, body \
+         format, variant, notify) per request plus the class-label sequence of each pipeline",
+    );
+    let gag = srv::Gag::new();
+    let body = catching(|| run_inner(args, &mut rep));
+    drop(gag);
+    if let Err(p) = body {
+        rep.inconclusive(format!("harness panic: {p}"));
+    }
     rep
+}
+
+fn run_inner(args: &Args, rep: &mut Report) {
+    let hb = Heartbeat::start();
+    let srv_rt = tokio::runtime::Builder::new_multi_thread().worker_threads(4).thread_name("c03-srv").enable_all().build().unwrap();
+    let cli_rt = tokio::runtime::Builder::new_multi_thread().worker_threads(4).thread_name("c03-cli").enable_all().build().unwrap();
+    let servers = match srv::start_all(&srv_rt) {
+        Ok(s) => Arc::new(s),
+        Err(e) => {
+            rep.inconclusive(format!("could not start servers: {e}"));
+            return;
+        }
+    };
+    rep.set("servers", json!(servers.iter().map(|s| s.name()).collect::<Vec<_>>()));
+    let n = args.budget(2_500, 36_000);
+    let deadline = Duration::from_secs(if args.thorough() { 420 } else { 33 });
+    let in_flight = 6usize;
+    let mut rng = Rng::new(args.seed ^ 0xC03);
+    let mut gst = GenStats { classifier_disagreements: 0 };
+    let seed = args.seed;
+    let mut executed = 0u64;
+    let seen = std::cell::RefCell::new(std::collections::HashSet::new());
+    cli_rt.block_on(async {
+        let mut pending: std::collections::VecDeque<(u64, Arc<Vec<Req>>, tokio::task::JoinHandle<Vec<ConnOut>>)> = Default::default();
+        let mut next = 0u64;
+        loop {
+            while pending.len() < in_flight && next < n && rep.elapsed() < deadline {
+                let mut r = rng.fork(next);
+                let reqs = Arc::new(gen_::gen_seq(next, &mut r, &mut gst));
+                let h = tokio::spawn(run_sequence(servers.clone(), reqs.clone(), r.fork(7)));
+                pending.push_back((next, reqs, h));
+                next += 1;
+            }
+            let Some((seq, reqs, h)) = pending.pop_front() else { break };
+            let outs = match h.await {
+                Ok(o) => o,
+                Err(e) => {
+                    rep.inconclusive(format!("sequence task {seq} failed: {e}"));
+                    continue;
+                }
+            };
+            executed += 1;
+            let stalled = hb.max_gap_ms() > 1000;
+            let cx = SeqCtx { seed, seq, reqs: &reqs, stalled, seen: &seen };
+            rep.count("requests_generated", reqs.len() as u64);
+            rep.count("requests_sent_over_all_paths", (reqs.len() * servers.len()) as u64);
+            rep.distinct(&reqs.iter().map(|r| (r.expect.label.clone(), r.notify)).collect::<Vec<_>>());
+            for r in reqs.iter() {
+                rep.distinct(&(&r.expect.label, r.target, r.bf, r.variant, r.notify));
+                rep.count(&format!("class.{}", r.expect.label.split(':').next().unwrap_or("")), 1);
+                if r.notify == 1 {
+                    rep.count("notify_requests", 1);
+                }
+            }
+            if seq < 3 {
+                rep.sample(json!({"sequence": seq, "len": reqs.len(), "first_requests": reqs.iter().take(4).enumerate().map(|(i, r)| r.desc(i)).collect::<Vec<_>>()}));
+            }
+            let mut singles = vec![];
+            for (s, out) in servers.iter().zip(outs.iter()) {
+                rep.eval();
+                if out.waited_out {
+                    rep.count("waits_for_expected_responses_expired", 1);
+                }
+                singles.push(check_server(rep, &cx, s, out));
+            }
+            differential(rep, &cx, &servers, &singles);
+        }
+        // late or unattributable invocations: anything still in the log was produced after its request
+        // had been judged (a second dispatch arriving late) or carries a token nobody sent
+        tokio::time::sleep(Duration::from_millis(300)).await;
+    });
+    let leftovers = srv::ev_drain();
+    for ((sid, kind, key), (cnt, route)) in leftovers.iter().take(5) {
+        let name = servers.iter().find(|s| s.sid == *sid).map(|s| s.name()).unwrap_or_default();
+        rep.violation(
+            format!("C03:late-or-unattributable-invocation:{name}:{}", if *kind == EV_H { "handler" } else { "middleware" }),
+            format!("{name}: {cnt} invocation record(s) with key {key} (route id {route}) after every request had been judged: a handler ran again late, or for a token no request carried (sequence {} request {} if a token)", key / 256, (key % 256).wrapping_sub(1)),
+            json!({"seed": seed, "key": key}),
+        );
+    }
+    rep.set("sequences_executed", json!(executed));
+    rep.set("sequences_planned", json!(n));
+    rep.set("invocation_events_logged", json!(srv::EVENTS_TOTAL.load(std::sync::atomic::Ordering::Relaxed)));
+    rep.set("generator_classifier_disagreements", json!(gst.classifier_disagreements));
+    rep.set("heartbeat_max_gap_ms", json!(hb.max_gap_ms()));
+    rep.assume("body decodability of generated bodies is classified with serde_json/beve directly (third-party codecs), never through repe");
+    rep.assume("when several reject conditions hold at once the statement fixes no precedence: any of the applicable codes is accepted by L2, the differential pins agreement");
+    if executed == 0 {
+        rep.inconclusive("no sequence executed");
+    } else if executed < n {
+        rep.set("stopped_by_wall_clock_budget", json!(true));
+    }
+    let _ = T::Json;
+    let _ = Tr::Tcp;
+    srv_rt.shutdown_background();
+    cli_rt.shutdown_background();
 }
